@@ -101,8 +101,10 @@ spec_make(struct spec_s *s, int kind, int n, int down)
  * the month (2012-03-02-03) and as Lilian day number (-i ldn); encoded as rd.
  * FAM_NS: a date-time with a sub-second part (-i/-f %FT%T.%N); encoded as instant * 4 + k, the
  * fraction being NSFRAC[k] */
-enum { FAM_D, FAM_T, FAM_DT, FAM_SX, FAM_B, FAM_W, FAM_YD, FAM_YMCW, FAM_LDN, FAM_NS, NFAM };
-static const char *const fam_name[] = {"date", "time", "datetime", "epoch", "bizda", "ywd", "yd", "ymcw", "ldn", "subsecond"};
+/* FAM_M24: a date-time spelt D T24:00:00 (military midnight); encoded as the instant it denotes,
+ * 00:00:00 of the following day */
+enum { FAM_D, FAM_T, FAM_DT, FAM_SX, FAM_B, FAM_W, FAM_YD, FAM_YMCW, FAM_LDN, FAM_NS, FAM_M24, NFAM };
+static const char *const fam_name[] = {"date", "time", "datetime", "epoch", "bizda", "ywd", "yd", "ymcw", "ldn", "subsecond", "T24"};
 static const int NSFRAC[4] = {500000000, 1, 999999999, 0};
 
 static int
@@ -327,6 +329,11 @@ oracle0(int fam, int64_t in, const struct spec_s *s, int next, int64_t *out, con
 		/* an epoch value is a date-time; a target the tool cannot apply to it may be refused */
 		fam = FAM_DT;
 	}
+	if (fam == FAM_M24) {
+		/* D T24:00:00 denotes 00:00:00 of the following day: the answer is the one for that
+		 * instant, however the result is spelt */
+		fam = FAM_DT;
+	}
 	if (s->kind == K_WK) {
 		int64_t cl;
 		/* the ISO week number is a field of every date, however it is written (quantifier: all
@@ -482,6 +489,13 @@ fmt_inst(char *buf, size_t bsz, int fam, int64_t v)
 		snprintf(buf, bsz, "%02d:%02d:%02d", (int)(v / 3600), (int)(v / 60 % 60), (int)(v % 60));
 	} else if (fam == FAM_SX) {
 		snprintf(buf, bsz, "%lld", (long long)(v - (int64_t)RC_RD_1970 * 86400));
+	} else if (fam == FAM_M24) {
+		if (v % 86400 == 0 && rc_get((int)(v / 86400) - 1) != NULL) {
+			const struct rc_day *p = rc_get((int)(v / 86400) - 1);
+			snprintf(buf, bsz, "%04d-%02d-%02dT24:00:00", p->y, p->m, p->d);
+		} else {
+			fmt_inst(buf, bsz, FAM_DT, v);
+		}
 	} else if (fam == FAM_NS) {
 		char t[40];
 		fmt_inst(t, sizeof(t), FAM_DT, v >> 2);
@@ -539,6 +553,19 @@ parse_out(const char *s, int fam, int64_t *out)
 		*out = (int64_t)e + (int64_t)RC_RD_1970 * 86400;
 		return (*out >= 0 && rd_ok(*out / 86400)) ? 0 : 2;
 	}
+	case FAM_M24:
+		if (sscanf(s, "%d-%d-%dT%d:%d:%d%n", &y, &m, &d, &H, &M, &S, &n) != 6 || s[n]) {
+			return 1;
+		}
+		if (H == 24 && M == 0 && S == 0) {
+			/* the same instant spelt the military way */
+			if (y < RC_MIN_YEAR || y > RC_MAX_YEAR || m < 1 || m > 12 || d < 1 || d > rc_mlen(y, m)) {
+				return 2;
+			}
+			*out = ((int64_t)rc_rd(y, m, d) + 1) * 86400;
+			return rd_ok(*out / 86400) ? 0 : 2;
+		}
+		return parse_out(s, FAM_DT, out);
 	case FAM_NS: {
 		int ns, k = -1;
 		int64_t o;
@@ -671,10 +698,10 @@ parse_out(const char *s, int fam, int64_t *out)
 	return 0;
 }
 
-static const char *const fam_fmt[] = {"%Y-%m-%d", "%H:%M:%S", "%Y-%m-%dT%H:%M:%S", "%s", "%Y-%m-%db", NULL, "yd", "ymcw", "ldn", "%Y-%m-%dT%H:%M:%S.%N"};
+static const char *const fam_fmt[] = {"%Y-%m-%d", "%H:%M:%S", "%Y-%m-%dT%H:%M:%S", "%s", "%Y-%m-%db", NULL, "yd", "ymcw", "ldn", "%Y-%m-%dT%H:%M:%S.%N", "%Y-%m-%dT%H:%M:%S"};
 /* how the input text is read: NULL = the format-less parser as on the command line */
-static const char *const fam_ifmt[NFAM] = {NULL, NULL, NULL, "%s", NULL, NULL, NULL, NULL, "ldn", "%Y-%m-%dT%H:%M:%S.%N"};
-static const char *const fam_opt[NFAM] = {"", "", "", "-i %s -f %s ", "", "", "", "", "-i ldn -f ldn ", "-i %FT%T.%N -f %FT%T.%N "};
+static const char *const fam_ifmt[NFAM] = {NULL, NULL, NULL, "%s", NULL, NULL, NULL, NULL, "ldn", "%Y-%m-%dT%H:%M:%S.%N", NULL};
+static const char *const fam_opt[NFAM] = {"", "", "", "-i %s -f %s ", "", "", "", "", "-i ldn -f ldn ", "-i %FT%T.%N -f %FT%T.%N ", ""};
 
 /* ------------------------------------------------------------- one rounding */
 static uint64_t *c_eval, *c_trans, *c_nontriv, *c_idem, *c_strict;
@@ -702,7 +729,7 @@ do_quarter(int fam, int64_t in, struct dt_dt_s v, const struct spec_s *s, int si
 	struct dt_dt_s r;
 	const char *what = NULL;
 	int64_t obs = NONE;
-	int rd0 = (int)(fam == FAM_DT ? in / 86400 : in), sec0 = fam == FAM_DT ? (int)(in % 86400) : 0;
+	int rd0 = (int)((fam == FAM_DT || fam == FAM_M24) ? in / 86400 : in), sec0 = (fam == FAM_DT || fam == FAM_M24) ? (int)(in % 86400) : 0;
 	const struct rc_day *p0 = rc_get(rd0);
 	int step = s->down ? -1 : 1, prc;
 	int64_t rr = rd0, plo = NONE, phi = NONE;
@@ -763,7 +790,7 @@ do_quarter(int fam, int64_t in, struct dt_dt_s v, const struct spec_s *s, int si
 			what = "input already on target is moved";
 		}
 	} else {
-		int64_t ord = fam == FAM_DT ? obs / 86400 : obs;
+		int64_t ord = (fam == FAM_DT || fam == FAM_M24) ? obs / 86400 : obs;
 		if (next && obs == in) {
 			what = "--next returns the input unchanged";
 		} else if (obs == in) {
@@ -771,7 +798,7 @@ do_quarter(int fam, int64_t in, struct dt_dt_s v, const struct spec_s *s, int si
 		} else if (ord < plo || ord > phi || rc_get((int)ord)->q != s->n) {
 			what = "not in the nearest quarter N on the requested side";
 		} else if (rc_get((int)ord)->d != (p0->d < rc_get((int)ord)->mlen ? p0->d : rc_get((int)ord)->mlen) ||
-			   (fam == FAM_DT && obs % 86400 != sec0)) {
+			   ((fam == FAM_DT || fam == FAM_M24) && obs % 86400 != sec0)) {
 			what = "finer fields (day of month, time) not kept";
 		}
 	}
@@ -799,7 +826,7 @@ do_round(int fam, int64_t in, struct dt_dt_s v, const struct spec_s *s, int si, 
 	int orc, prc;
 
 	if (s->kind == K_Q) {
-		if (fam != FAM_D && fam != FAM_DT) {
+		if (fam != FAM_D && fam != FAM_DT && fam != FAM_M24) {
 			return 0;
 		}
 		return do_quarter(fam, in, v, s, si, next, verbose);
@@ -1695,14 +1722,14 @@ main(int argc, char *argv[])
 		"on the requested side; rounding the result again (no -n) must not move it. Readings: a day-of-month target beyond a month's end is judged "
 		"only when the exact and the clamped reading agree; several RNDSPECs in one call: the single-spec model applied left to right (--help), and the whole "
 		"list once more on the tool's own result; Nb (business day of the month, 1..20) on values held as business day of the month and /1b (grid = Mon-Fri) "
-		"are judged; Nw (ISO week number 1..53, accepted by the tool and pinned by test/dround.030) on week dates: nearest date on the requested side in week N with the weekday kept, week 53 of a 52-week year judged only where the exact and the clamped reading agree; dates held as week date, year-day, n-th weekday of the month, Lilian day number or business day of the month and epoch values: the same model as for ymd dates (quantifier: all dates), printed in the input's calendar; a refusal (no value) is accepted there, an ignored target is not; sub-second inputs: grid points are whole seconds, value targets keep the fraction; where the day-of-month / week-53 / business-day readings differ the target is open but rounding twice must still equal rounding once; Nq: judged is what every reading shares (in the quarter already: unchanged; else a day of the nearest quarter N on the requested side with day of month and time kept), which month of the quarter is open; /1w (a week grid is nowhere documented) not enumerated; --from-zone: the value is rounded in the zone's wall-clock time whichever way it is given (argument form pinned by test/dround.034); not enumerated: Ny (refused by the tool: years do not recur), "
+		"are judged; Nw (ISO week number 1..53, accepted by the tool and pinned by test/dround.030) on week dates: nearest date on the requested side in week N with the weekday kept, week 53 of a 52-week year judged only where the exact and the clamped reading agree; dates held as week date, year-day, n-th weekday of the month, Lilian day number or business day of the month and epoch values: the same model as for ymd dates (quantifier: all dates), printed in the input's calendar; a refusal (no value) is accepted there, an ignored target is not; sub-second inputs: grid points are whole seconds, value targets keep the fraction; D T24:00:00 denotes 00:00:00 of the following day (C11; dadd, dseq, dsort read it so): the answer is the one for that instant, the result may be spelt either way; where the day-of-month / week-53 / business-day readings differ the target is open but rounding twice must still equal rounding once; Nq: judged is what every reading shares (in the quarter already: unchanged; else a day of the nearest quarter N on the requested side with day of month and time kept), which month of the quarter is open; /1w (a week grid is nowhere documented) not enumerated; --from-zone: the value is rounded in the zone's wall-clock time whichever way it is given (argument form pinned by test/dround.034); not enumerated: Ny (refused by the tool: years do not recur), "
 		"Nw (not in the help's list of suffixes), the documented spelling `bd' (rejected by the parser, see notes); /Nmo only for N | 12; results beyond 1601..4095 skipped. non-trivial = the rounded value is in another month (dates), on "
 		"another day (date-times), or beyond midnight (times)");
 	ex_meta("bound", "%s: dates: all days %d-01-01..%d-12-31 x {7 weekday names, 12 month names, 12 month numbers, day-of-month 1..31, /1d, /{1,2,3,4,6,12}mo, "
 		"/{1,2,4,5,10,100}y} x {up,down} x {-,-n}; times: all 86,400 seconds x {0..23h, 0..59m, 0..59s, /{1,2,3,4,6,8,12,24}h, /{12 divisors of 60}m, "
 		"/{12 divisors}s} x {up,down} x {-,-n}; date-times: %d boundary days x 7 times x all of the above; the same instants given as Unix epoch seconds (-i %%s) x the /N time targets; main(): N = 0..70 x {h,m,s,mo,d} x {N, /N} x "
 		"{up,down} x {-,-n} x 3 inputs; lists: all ordered pairs%s over %d RNDSPECs of mixed kinds x {-,-n} on %d days (the boundary days before 4094) x 7 times (date-times) and on the days alone "
-		"(date specs only); bizda: every Mon-Fri day of the tier x 1..20b x {up,down} x {-,-n}; week dates: every day of the tier x 1..53w x {up,down} x {-,-n}, observed as week date and as %%F; dates held as ywd / yd / ymcw / ldn / bizda: every day of %d years x all date targets; epoch values also x {Mon Feb 3mo 15d 5h 30m 59s /1d /Nmo /Ny /1b}; date-times with .5 / .000000001 / .999999999 s on the boundary days x all targets; 21b..23b on all Mon-Fri days; 1w..53w also on the dates of those years written as ymd / yd / ymcw / ldn / bizda and on the boundary date-times; 1q..4q on those ymd dates and date-times; --from-zone Z [-z Z] for %d zones (whole-hour, half-hour, 45-minute offsets, DST) x 5 date-times x 16 specs x {-,-n} x {argument, stdin, -E, -S}; binding: %d RNDSPECs x all days of the tier on stdin of the dround binary",
+		"(date specs only); bizda: every Mon-Fri day of the tier x 1..20b x {up,down} x {-,-n}; week dates: every day of the tier x 1..53w x {up,down} x {-,-n}, observed as week date and as %%F; dates held as ywd / yd / ymcw / ldn / bizda: every day of %d years x all date targets; epoch values also x {Mon Feb 3mo 15d 5h 30m 59s /1d /Nmo /Ny /1b}; date-times with .5 / .000000001 / .999999999 s on the boundary days x all targets; 21b..23b on all Mon-Fri days; 1w..53w also on the dates of those years written as ymd / yd / ymcw / ldn / bizda and on the boundary date-times; 1q..4q on those ymd dates and date-times; the boundary days spelt D T24:00:00 x all targets; --from-zone Z [-z Z] for %d zones (whole-hour, half-hour, 45-minute offsets, DST) x 5 date-times x 16 specs x {-,-n} x {argument, stdin, -E, -S}; binding: %d RNDSPECs x all days of the tier on stdin of the dround binary",
 		ex.thorough ? "thorough" : "quick", ylo, yhi, NBDAYS, ex.thorough ? " and triples" : "", NMDEF, NBDAYS - 3, ex.thorough ? 24 : 2, ex.thorough ? NZN : 4, NBIND);
 	ex_meta("binding", "dround binary of the same build reading all days of the tier from stdin for %d (option, RNDSPEC) pairs, byte-compared with the level-S observation", NBIND);
 
@@ -1817,6 +1844,19 @@ main(int argc, char *argv[])
 				do_input(FAM_NS, in, cobd_lo, cobd_hi);
 			}
 		}
+		++*c_traces;
+	}
+	/* date-times spelt D T24:00:00 */
+	for (int b = 0; b < NBDAYS && !ex_expired(); b++, slice++) {
+		int64_t in;
+		if (!ex_mine(slice) || bdays[b][0] >= 4094) {
+			continue;
+		}
+		in = ((int64_t)rc_rd(bdays[b][0], bdays[b][1], bdays[b][2]) + 1) * 86400;
+		do_input(FAM_M24, in, 0, bd_lo);
+		do_input(FAM_M24, in, cobd_lo, cobd_hi);
+		do_input(FAM_M24, in, wk_lo, wk_hi);
+		do_input(FAM_M24, in, q_lo, q_hi);
 		++*c_traces;
 	}
 	/* several RNDSPECs in one call: pairs (quick) / pairs and triples (thorough) */
